@@ -44,6 +44,15 @@ CHECKS = {
     "C20": ("exploration", "Hypothesis-generated declarations weighted to positioning/Em/align x packet pairs (equal, one leaf changed at any depth, look-alike class, non-packets); ==/!=/repr totality and agreement with a deep structural compare",
             "Pairs from two parses, two constructions, parse vs construction, single-leaf changes in lists/nested packets, a twin class with identical fields, and None/0/b''/list/str; == must equal (same class and equal value trees), != its negation, nothing may raise.",
             "Ground truth is the harness' own deep comparison of attribute trees.", "DESIGN.md section 5 C20"),
+    "C05": ("exploration", "bounded-exhaustive enumeration of integer configurations x exhaustive/lane-exhaustive byte patterns and boundary/random values; oracle = independent positional arithmetic",
+            "All combinations of width {1..17,24,32,64} x sign x 7 byte-order spellings x 3 engines x 6 positions are defined as real classes; width 1 (and 2 in thorough) decoded exhaustively, every byte lane through 256 values, boundary/out-of-range/random integers and non-integers packed; decode/encode compared with hand-written positional arithmetic, rejections must be PacketError.",
+            "Widths above 64 bytes and values beyond 8n+8 bits are not explored; exhaustive only where stated.", "DESIGN.md section 5 C05"),
+    "C07": ("exploration", "bounded-exhaustive enumeration of bit-run compositions (all of 8 bits, all/sampled of 16, sampled to 72) x byte patterns, boundary pack values and unpack-assign-pack histories; oracle = independent slice arithmetic",
+            "Every composition of 8 bits with all 256 byte values, compositions of 16 bits (all 32768 in thorough), wider sampled runs, alone / between byte neighbours / two runs / little-endian class / generic code; slices, repacking, single-field reassignment after a parse and arbitrary large/negative values are compared with slice arithmetic; non byte-aligned runs must be rejected at class definition.",
+            "Exhaustive for 8 bits (and 16 in thorough); sampled above.", "DESIGN.md section 5 C07"),
+    "C09": ("exploration", "Hypothesis recursive generation of expression trees over a host packet; deferred evaluation vs eager evaluation of the mirrored tree (value, kind, exception class), plus use as size/count/condition against the reference parser",
+            "Random trees over all 18 binary operators in both operand orders, unary operators, length/truth, indexing, slicing with steps, chooses/if_true_then_else in all call forms; each compiled expression is evaluated on four packets in a row and compared with Python's own evaluation of the same tree.",
+            "Operands are byte-sized; magnitude of ** and << bounded by construction.", "DESIGN.md section 5 C09"),
 }
 
 NOT_YET = {}
